@@ -28,7 +28,7 @@ from pysasl.mechanism import ServerChallenge, ChallengeResponse
 from pysasl.creds.client import ClientCredentials
 from pysasl.exception import AuthenticationError
 
-from . import SmtpError
+from . import SmtpError, BadReply
 from .reply import Reply
 
 __all__ = ['ServerAuthError', 'AuthSession']
@@ -160,7 +160,10 @@ class AuthSession(object):
         ret = Reply(command=b'AUTH')
         ret.recv(self.io)
         if ret.code == '334':
-            return base64.b64decode(ret.message), ret
+            try:
+                return base64.b64decode(ret.message), ret
+            except ValueError:
+                raise BadReply(ret.message.encode('utf-8'))
         return None, ret
 
     def client_attempt(self, authcid, secret, authzid, mech_name):
@@ -176,7 +179,11 @@ class AuthSession(object):
             mechanism, resp.response, True)
         while chal is not None:
             responses.append(ServerChallenge(chal))
-            resp = mechanism.client_attempt(creds, responses)
+            try:
+                resp = mechanism.client_attempt(creds, responses)
+            except AuthenticationError:
+                # A challenge the mechanism has no answer to.
+                raise BadReply(reply.message.encode('utf-8'))
             chal, reply = self._client_respond(mechanism, resp.response)
         return reply
 
